@@ -89,6 +89,7 @@ func readAll(data []byte, sizes []int, tailErr bool, measure bool) (obs readObs,
 			}
 		}()
 		cr := vc.NewChunkReader(data, sizes, tailErr)
+		cr.EndWithData = endWithData
 		sp := stream.NewStreamProcessor(cr, nil, context.Background())
 		defer sp.Close()
 		if measure {
@@ -129,6 +130,27 @@ func readAll(data []byte, sizes []int, tailErr bool, measure bool) (obs readObs,
 		timeouts++
 	}
 	return
+}
+
+// endWithData: the chunk reader of the current case returns the end of the stream (EOF / error)
+// together with the last bytes (tail token `eof+` / `err+`), as io.Reader allows and QUIC streams do.
+var endWithData bool
+
+func tailTok(tailErr bool) string {
+	t := "eof"
+	if tailErr {
+		t = "err"
+	}
+	if endWithData {
+		t += "+"
+	}
+	return t
+}
+
+// setTail parses a tail token and sets endWithData for the case about to be executed.
+func setTail(tok string) (tailErr bool) {
+	endWithData = strings.HasSuffix(tok, "+")
+	return strings.TrimSuffix(tok, "+") == "err"
 }
 
 // timeouts counts watchdog verdicts. A reader that spins or blocks forever leaves its goroutine
@@ -189,10 +211,7 @@ func runRTRate(pk []pkt, sizes []int, tailErr bool, rate int64) (caseStr, obs st
 		}
 	}
 	wire := append([]byte{}, buf.buf.Bytes()...)
-	tail := "eof"
-	if tailErr {
-		tail = "err"
-	}
+	tail := tailTok(tailErr)
 	var sb strings.Builder
 	fmt.Fprintf(&sb, "rt %s tbl %d", tail, len(tbl)/2)
 	if len(tbl) > 0 {
@@ -417,8 +436,18 @@ func keyOf(pk []pkt, sizes []int) string {
 	return sb.String()
 }
 
+var emitSeq int
+
 func emitRT(out *vc.Out, pk []pkt, sizes []int, tailErr bool, kind string) {
+	if kind != "corpus" { // every third generated case ends the stream together with its last bytes
+		emitSeq++
+		endWithData = emitSeq%3 == 0
+	}
+	if endWithData {
+		out.Count("end-with-data")
+	}
 	c, o := runRT(pk, sizes, tailErr)
+	endWithData = false
 	key := ""
 	if len(sizes) > 1 && len(pk) > 0 { // non-trivial: at least one cut in the stream
 		key = keyOf(pk, sizes)
@@ -595,7 +624,7 @@ func parseCaseRT(toks []string) ([]pkt, []int, bool, error) {
 	if len(toks) < 4 || toks[0] != "rt" {
 		return nil, nil, false, errors.New("not an rt case")
 	}
-	tailErr := toks[1] == "err"
+	tailErr := setTail(toks[1])
 	i := 2
 	if toks[i] != "tbl" {
 		return nil, nil, false, errors.New("tbl expected")
